@@ -6,8 +6,12 @@ package main
 // overwritten with 00 / FF / 80), for which the allowed outcome is "ok or error, never a panic".
 
 import (
+	"archive/zip"
+	"bytes"
+	"compress/flate"
 	"encoding/json"
 	"fmt"
+	"hash/crc32"
 	"math/rand"
 	"os"
 
@@ -19,6 +23,7 @@ import (
 func init() {
 	execKinds["load"] = execLoadCase
 	execKinds["loadfile"] = execLoadFileCase
+	execKinds["loadzip"] = execLoadZipCase
 }
 
 type loadX struct {
@@ -209,4 +214,91 @@ func repoPath() string {
 		return p
 	}
 	return "/repo"
+}
+
+// execLoadZipCase: a small model inside a zip archive whose entry header is honest or forged (declared uncompressed / compressed
+// sizes that are not the real ones, up to 2^64-1 through the zip64 extra field), loaded with NewModelFromZipFile.
+func execLoadZipCase(c *Case) []ModeResult {
+	var x struct {
+		Declared string `json:"declared"` // honest | plus1 | minus1 | zero | 2^32 | 2^48 | 2^62 | max
+		Method   uint16 `json:"method"`   // 0 store, 8 deflate
+		Expect   string `json:"expect"`   // loads | nocrash
+	}
+	if err := json.Unmarshal(c.X, &x); err != nil {
+		return []ModeResult{{"loadzip", "infra:" + err.Error(), ""}}
+	}
+	g := &onnx.GraphProto{Name: "g",
+		Node:        []*onnx.NodeProto{{OpType: "Relu", Input: []string{"w"}, Output: []string{"y"}}},
+		Initializer: []*onnx.TensorProto{{Name: "w", DataType: 1, Dims: []int64{2, 3}, FloatData: []float32{1, -2, 3, -4, 5, -6}}},
+		Output:      []*onnx.ValueInfoProto{{Name: "y"}}}
+	model, err := proto.Marshal(mkModel(g, 13))
+	if err != nil {
+		return []ModeResult{{"loadzip", "infra:" + err.Error(), ""}}
+	}
+	payload := model
+	if x.Method == zip.Deflate {
+		var cb bytes.Buffer
+		fw, _ := flate.NewWriter(&cb, flate.DefaultCompression)
+		_, _ = fw.Write(model)
+		_ = fw.Close()
+		payload = cb.Bytes()
+	}
+	size := uint64(len(model))
+	switch x.Declared {
+	case "plus1":
+		size++
+	case "minus1":
+		size--
+	case "zero":
+		size = 0
+	case "2^32":
+		size = 1 << 32
+	case "2^48":
+		size = 1 << 48
+	case "2^62":
+		size = 1 << 62
+	case "max":
+		size = ^uint64(0)
+	}
+	var buf bytes.Buffer
+	zw := zip.NewWriter(&buf)
+	w, err := zw.CreateRaw(&zip.FileHeader{Name: "model.onnx", Method: x.Method, CRC32: crc32.ChecksumIEEE(model),
+		CompressedSize64: uint64(len(payload)), UncompressedSize64: size})
+	if err != nil {
+		return []ModeResult{{"loadzip", "infra:" + err.Error(), ""}}
+	}
+	if _, err := w.Write(payload); err != nil {
+		return []ModeResult{{"loadzip", "infra:" + err.Error(), ""}}
+	}
+	if err := zw.Close(); err != nil {
+		return []ModeResult{{"loadzip", "infra:" + err.Error(), ""}}
+	}
+	o := guard(func() Observation {
+		zr, err := zip.NewReader(bytes.NewReader(buf.Bytes()), int64(buf.Len()))
+		if err != nil {
+			return observeErr(err) // the archive library itself refuses the archive: nothing reaches the library under test
+		}
+		if len(zr.File) != 1 {
+			return Observation{Kind: "harness", Note: "archive without its entry"}
+		}
+		m, err := gonnx.NewModelFromZipFile(zr.File[0])
+		if err != nil {
+			return observeErr(err)
+		}
+		out, err := m.Run(gonnx.Tensors{})
+		if err != nil {
+			return observeErr(err)
+		}
+		return collect([]string{"y"}, out)
+	})
+	verdict := "pass"
+	switch {
+	case o.Kind == "harness":
+		verdict = "infra:" + o.Note
+	case o.Kind == "panic":
+		verdict = "violation:loading a zip entry that declares " + x.Declared + " bytes panicked: " + o.Note
+	case x.Expect == "loads" && o.Kind != "value":
+		verdict = "violation:an honest archive was refused: " + o.Short()
+	}
+	return []ModeResult{{"zip:" + x.Declared, verdict, o.Short()}}
 }
